@@ -237,7 +237,7 @@ def c07(prop, tier, seed):
             vg = shutil.which("valgrind")
             if vg:
                 out = os.path.join(wd, "vg.jsonl")
-                p = subprocess.run([vg, "-q", "--error-exitcode=9", b2, "crc", "--cases", "13", "--multi", "40", "--no-large", "1", "--seed", str(seed), "--out", out], env=driver.ENV, stdout=subprocess.PIPE, stderr=subprocess.PIPE, text=True, timeout=3000)
+                p = subprocess.run([vg, "-q", "--error-exitcode=9", b2, "crc", "--cases", "13", "--multi", "40", "--no-large", "1", "--case-watchdog", "3000", "--seed", str(seed), "--out", out], env=driver.ENV, stdout=subprocess.PIPE, stderr=subprocess.PIPE, text=True, timeout=3000)
                 notes["valgrind_memcheck_rc"] = p.returncode
                 if p.returncode == 9:
                     res.viols.append({"prop": prop, "sig": f"{prop}/valgrind-memcheck-report", "detail": p.stderr[-1500:], "workload": "crc", "seed": seed, "case": 0, "args": None})
